@@ -4,6 +4,7 @@ Each entry: (keyword in the commit subject, property, what failed before the fix
 import json, subprocess, os
 ROOT = os.path.dirname(os.path.dirname(os.path.abspath(__file__)))
 M = [
+ ('refuses to cast a function value instead of panicking', 'C02', '`fn helper(x: int) -> int { x } fn main() { let o = new { ? }; o.set("f", helper); let v = o.get("f").unwrap() as int; }` on the interpreter: DeepCast panicked `Unreachable, the analyzer prevents this` for function, closure and builtin-function values (the VM answers with a cast error)'),
  ('interpreter for loop with an empty body never noticed', 'C10', '`fn main() { for i in 0..9000000000000000000 { } }` (the repository\'s examples/sig_term.hms) on the interpreter: no statement or expression is evaluated per iteration, the context was never polled and Run never returned after cancellation'),
  ('a range literal is constant only if both of its bounds are', 'C03', '`fn f() -> int { 3 } let r = 0..(f() as int);` was accepted: AnalyzedRangeLiteralExpression.Constant() answered true for every range, the global-initialiser rule never looked at the bounds'),
  ('reports a trigger statement as unsupported instead of panicking', 'C02', '`import trigger minute from triggers; event fn cb(elapsed: int) { } fn main() { trigger cb at minute(5); }` on the interpreter: the statement switch has no case for trigger statements, host panic `A new statement kind (1) was added without updating this code`'),
